@@ -390,6 +390,12 @@ def _batch_runner(ctx, chk, rule):
     chk.undecided(rule, f.where(), "no solve() call reachable from run_games inside conditionalrewards.py")
 
 
+def _unresolved_container(t):
+    """the value is read out of a dictionary / list that was built by operations the symbolic executor does not follow (update with
+    an unknown mapping, a comprehension over unknown keys, zip of unknown sequences): what it is cannot be said"""
+    return t[0] == "idx" and t[1][0] in ("setitem", "call", "mcall", "ite", "compr", "res", "cat", "apply")
+
+
 def r5_record(ctx, chk, rec_t, rule="C12.5"):
     s = summary(ctx)
     f = s.f
@@ -432,6 +438,9 @@ def r5_record(ctx, chk, rec_t, rule="C12.5"):
         vA, vB, vC = scenario(s, v, good, False), scenario(s, v, good, True), scenario(s, v, bad if bad is not None else (not good), None)
         want_d = DEFAULTS[key]
         okA = vA[0] == "idx" and vA[1][0] == "mcall" and vA[1][2] == "solve"
+        if not okA and _unresolved_container(vA):
+            chk.undecided(rule, f.where(Li.node), "record[%r] when solved is `%s`: the entry goes through a container operation that is not resolved" % (key, show(vA)[:100]))
+            continue
         if not okA:
             chk.violation(rule, f.where(Li.node), "record[%r] when solved is `%s`, not a slot of solve()'s result" % (key, show(vA)[:100]), expected="solve()[%d]" % slot, found=show(vA)[:140],
                           construct="run_games record %s source" % key)
@@ -456,11 +465,15 @@ def r5_record(ctx, chk, rec_t, rule="C12.5"):
     nt = rec.get("n_transitions")
     if go is not None and ns == ("attr", go, "num_states"):
         chk.ok(rule, f.where(Li.node), "record['n_states'] = num_states of this iteration's game object")
+    elif ns is not None and _unresolved_container(ns):
+        chk.undecided(rule, f.where(Li.node), "record['n_states'] = `%s`: goes through a container operation that is not resolved" % show(ns)[:80])
     else:
         chk.violation(rule, f.where(Li.node), "record['n_states'] = `%s`" % (show(ns)[:80] if ns else None), expected="sgame.num_states", found=show(ns)[:100] if ns else "missing",
                       construct="run_games record n_states")
     if go is not None and nt == ("mcall", go, "count_transitions", (), ()):
         chk.ok(rule, f.where(Li.node), "record['n_transitions'] = count_transitions() of this iteration's game object")
+    elif nt is not None and _unresolved_container(nt):
+        chk.undecided(rule, f.where(Li.node), "record['n_transitions'] = `%s`: goes through a container operation that is not resolved" % show(nt)[:80])
     else:
         chk.violation(rule, f.where(Li.node), "record['n_transitions'] = `%s`" % (show(nt)[:80] if nt else None), expected="sgame.count_transitions()", found=show(nt)[:100] if nt else "missing",
                       construct="run_games record n_transitions")
